@@ -23,11 +23,14 @@ enum S {
     Block(Vec<S>),
     If(E, Vec<S>, Option<Vec<S>>),
     Loop(u8, Vec<S>),       // 0: times(2) { .. }  1: loop { .. }  2: while (1) { .. }  3: do { .. } while (0);
+    Func(String, Vec<String>, Vec<S>),   // void name(int p, ..) { .. }   (an item: visible in the whole block, its body sees no outer locals)
+    CallF(String, Vec<E>),               // name(e, ..);
 }
 
 const POOL: &[&str] = &["a", "b", "c", "d", "e"];
 const ALIASES: &[&str] = &["GI0", "N0"];       // register aliases of default_lang (int)
 const BUILTINS: &[&str] = &["true", "false"];   // always-available int consts
+const FPOOL: &[&str] = &["f", "g", "h", "a", "b"];   // function names (their own namespace: `a` the function and `a` the variable coexist)
 
 fn gen_e(t: &mut Tape, depth: usize, names: &[&str], declared: &[String]) -> E {
     match t.below(if depth == 0 { 3 } else { 4 }) {
@@ -38,6 +41,7 @@ fn gen_e(t: &mut Tape, depth: usize, names: &[&str], declared: &[String]) -> E {
 }
 
 fn gen_block(t: &mut Tape, depth: usize, budget: &mut usize, names: &[&str], outer: &[String]) -> Vec<S> {
+    let fns = FNS.with(|f| f.get());
     let n = 1 + t.below(5);
     let mut out = vec![];
     // names (probably) visible here: what enclosing blocks declared before this point, plus the globals
@@ -52,7 +56,7 @@ fn gen_block(t: &mut Tape, depth: usize, budget: &mut usize, names: &[&str], out
             if local_names.contains(&n) && !t.chance(1, 6) { for c in POOL { if !local_names.iter().any(|x| x == c) { n = c.to_string(); break; } } }
             n
         };
-        let s = match t.below(10) {
+        let s = match t.below(if fns { 13 } else { 10 }) {
             0 | 1 => { let e = gen_e(t, 1, names, &declared); let n = fresh_name(t, &local_names); declared.push(n.clone()); local_names.push(n.clone()); S::Decl(n, e) }
             2 | 3 => { let consts: Vec<String> = vec![]; let e = gen_e(t, 1, names, &consts); let n = fresh_name(t, &local_names); declared.push(n.clone()); local_names.push(n.clone()); S::Const(n, if t.chance(1, 3) { gen_e(t, 1, names, &declared) } else { e }) }
             4 | 5 => S::Use(gen_e(t, 2, names, &declared)),
@@ -60,6 +64,15 @@ fn gen_block(t: &mut Tape, depth: usize, budget: &mut usize, names: &[&str], out
             7 if depth > 0 => S::Block(gen_block(t, depth - 1, budget, names, &declared)),
             8 if depth > 0 => { let c = gen_e(t, 1, names, &declared); let a = gen_block(t, depth - 1, budget, names, &declared); let b = if t.bool() { Some(gen_block(t, depth - 1, budget, names, &declared)) } else { None }; S::If(c, a, b) }
             9 if depth > 0 => { let kind = t.below(4) as u8; S::Loop(kind, gen_block(t, depth - 1, budget, names, &declared)) }
+            10 if depth > 0 => {
+                let name = (*t.pick(FPOOL)).to_string();
+                let np = t.below(3);
+                let params: Vec<String> = (0..np).map(|_| (*t.pick(POOL)).to_string()).collect();
+                // inside the body the parameters are the probable names; outer locals are deliberately offered too (they must be rejected)
+                let mut inner: Vec<String> = params.clone(); if t.chance(1, 3) { inner.extend(declared.iter().cloned()); }
+                S::Func(name, params, gen_block(t, depth - 1, budget, names, &inner))
+            }
+            11 | 12 => { let n = t.below(3); S::CallF((*t.pick(FPOOL)).to_string(), (0..n).map(|_| gen_e(t, 1, names, &declared)).collect()) }
             _ => S::Use(gen_e(t, 1, names, &declared)),
         };
         out.push(s);
@@ -80,6 +93,8 @@ fn print_block(b: &[S], ind: usize, out: &mut String) {
             S::Assign(n, e) => { out.push_str(&format!("{}{} = ", pad, n)); print_e(e, out); out.push_str(";\n"); }
             S::Block(b) => { out.push_str(&format!("{}{{\n", pad)); print_block(b, ind + 1, out); out.push_str(&format!("{}}}\n", pad)); }
             S::If(c, a, b) => { out.push_str(&format!("{}if (", pad)); print_e(c, out); out.push_str(") {\n"); print_block(a, ind + 1, out); if let Some(b) = b { out.push_str(&format!("{}}} else {{\n", pad)); print_block(b, ind + 1, out); } out.push_str(&format!("{}}}\n", pad)); }
+            S::Func(n, ps, b) => { out.push_str(&format!("{}void {}({}) {{\n", pad, n, ps.iter().map(|p| format!("int {}", p)).collect::<Vec<_>>().join(", "))); print_block(b, ind + 1, out); out.push_str(&format!("{}}}\n", pad)); }
+            S::CallF(n, es) => { out.push_str(&format!("{}{}(", pad, n)); for (i, e) in es.iter().enumerate() { if i > 0 { out.push_str(", "); } print_e(e, out); } out.push_str(");\n"); }
             S::Loop(kind, b) => {
                 let (open, close) = match kind { 0 => ("times(2) {", "}"), 1 => ("loop {", "}"), 2 => ("while (1) {", "}"), _ => ("do {", "} while (0);") };
                 out.push_str(&format!("{}{}\n", pad, open)); print_block(b, ind + 1, out); out.push_str(&format!("{}{}\n", pad, close));
@@ -91,13 +106,15 @@ fn print_block(b: &[S], ind: usize, out: &mut String) {
 // ---- M-scope ---------------------------------------------------------------------------------
 
 #[derive(Clone, Debug, PartialEq)]
-enum Res { Decl(usize), Global(String), Error(String), Unspecified }
+enum Res { Decl(usize), Global(String), Error(String), Unspecified,
+    /// an argument beyond the callee's parameter list: the call is rejected for its arity later, and resolution never looks at it
+    Unchecked }
 
 #[derive(Clone, Copy, PartialEq, Debug)]
 enum RibKind { Items, Locals, Barrier }
 struct Rib { kind: RibKind, map: BTreeMap<String, usize> }
 
-struct Model { decl_occ: BTreeMap<usize, usize>, ribs: Vec<Rib>, occ: Vec<(String, Res)>, errors: usize, shadow: bool, forward: bool, barrier_use: bool, redeclared: bool }
+struct Model { fn_arity: BTreeMap<usize, usize>, fribs: Vec<BTreeMap<String, usize>>, fn_barrier_use: bool, fn_forward: bool, decl_occ: BTreeMap<usize, usize>, ribs: Vec<Rib>, occ: Vec<(String, Res)>, errors: usize, shadow: bool, forward: bool, barrier_use: bool, redeclared: bool }
 
 impl Model {
     fn lookup(&mut self, name: &str, in_const: bool) -> Res {
@@ -129,6 +146,9 @@ impl Model {
             E::Add(a, b) => { self.expr(a, in_const); self.expr(b, in_const); }
         }
     }
+    fn skip(&mut self, e: &E) {
+        match e { E::Lit(_) => {}, E::Name(n) => self.occ.push((n.clone(), Res::Unchecked)), E::Add(a, b) => { self.skip(a); self.skip(b); } }
+    }
     fn block(&mut self, b: &[S]) {
         // consts of this block are visible throughout it, including before their declaration
         let mut items = BTreeMap::new();
@@ -140,6 +160,18 @@ impl Model {
                 const_occ.insert(i, id);
             }
         }
+        // functions of this block: their own namespace, visible throughout the block
+        let mut fitems = BTreeMap::new();
+        let mut func_occ: BTreeMap<usize, usize> = BTreeMap::new();
+        for (i, s) in b.iter().enumerate() {
+            if let S::Func(n, _, _) = s {
+                let id = self.new_decl_id();
+                if fitems.insert(n.clone(), id).is_some() { self.errors += 1; self.redeclared = true; }
+                func_occ.insert(i, id);
+                if let S::Func(_, ps, _) = s { self.fn_arity.insert(id, ps.len()); }
+            }
+        }
+        self.fribs.push(fitems);
         self.ribs.push(Rib { kind: RibKind::Items, map: items });
         self.ribs.push(Rib { kind: RibKind::Locals, map: BTreeMap::new() });
         for (i, s) in b.iter().enumerate() {
@@ -168,17 +200,45 @@ impl Model {
                 S::Block(inner) => self.block(inner),
                 S::If(c, a, e) => { self.expr(c, false); self.block(a); if let Some(e) = e { self.block(e); } }
                 S::Loop(_, inner) => self.block(inner),
+                S::Func(n, ps, body) => {
+                    self.decl_occ.insert(func_occ[&i], self.occ.len());
+                    self.occ.push((n.clone(), Res::Decl(func_occ[&i])));
+                    // the body sees no locals / parameters of enclosing code; its parameters live in a rib of their own
+                    self.ribs.push(Rib { kind: RibKind::Barrier, map: BTreeMap::new() });
+                    let mut pm = BTreeMap::new();
+                    for p in ps {
+                        let id = self.new_decl_id();
+                        self.decl_occ.insert(id, self.occ.len());
+                        self.occ.push((p.clone(), Res::Decl(id)));
+                        if pm.insert(p.clone(), id).is_some() { self.errors += 1; self.redeclared = true; }
+                    }
+                    self.ribs.push(Rib { kind: RibKind::Locals, map: pm });
+                    let before = self.occ.len();
+                    self.block(body);
+                    if self.occ[before..].iter().any(|(_, r)| matches!(r, Res::Error(m) if m.starts_with("local "))) { self.fn_barrier_use = true; }
+                    self.ribs.pop();
+                    self.ribs.pop();
+                }
+                S::CallF(n, es) => {
+                    let r = match self.fribs.iter().rev().find_map(|m| m.get(n)) { Some(d) => Res::Decl(*d), None => { self.errors += 1; Res::Error(format!("unknown function {}", n)) } };
+                    // arguments are matched with the callee's parameters; surplus ones are never resolved (the arity error comes later)
+                    let visited = match &r { Res::Decl(d) => self.fn_arity.get(d).copied().unwrap_or(usize::MAX), _ => usize::MAX };
+                    self.occ.push((n.clone(), r));
+                    for (k, e) in es.iter().enumerate() { if k < visited { self.expr(e, false); } else { self.skip(e); } }
+                }
             }
         }
+        self.fribs.pop();
         self.ribs.pop();
         self.ribs.pop();
     }
     fn new_decl_id(&mut self) -> usize { self.occ.len() * 1000 + self.ribs.len() * 7 + self.errors + { NEXT.with(|n| { let v = n.get(); n.set(v + 1); v }) } * 1_000_000 }
 }
+thread_local! { static FNS: std::cell::Cell<bool> = std::cell::Cell::new(false); }
 thread_local! { static NEXT: std::cell::Cell<usize> = std::cell::Cell::new(1); }
 
 fn run_model(b: &[S]) -> Model {
-    let mut m = Model { decl_occ: BTreeMap::new(), ribs: vec![], occ: vec![], errors: 0, shadow: false, forward: false, barrier_use: false, redeclared: false };
+    let mut m = Model { fn_arity: BTreeMap::new(), fribs: vec![], fn_barrier_use: false, fn_forward: false, decl_occ: BTreeMap::new(), ribs: vec![], occ: vec![], errors: 0, shadow: false, forward: false, barrier_use: false, redeclared: false };
     m.block(b);
     // forward reference: a use of a const whose declaration occurrence comes later in the text
     let decl_pos = m.decl_occ.clone();
@@ -192,6 +252,18 @@ fn truth_occurrences(block: &ast::Block, ctx: &truth::CompilerContext) -> Vec<(u
     use truth::ast::{Visit, Visitable};
     struct V<'a, 'b> { out: Vec<(usize, String, Option<u32>)>, ctx: &'a truth::CompilerContext<'b> }
     impl Visit for V<'_, '_> {
+        fn visit_item(&mut self, item: &truth::Sp<ast::Item>) {
+            if let ast::Item::Func(f) = &item.value {
+                self.out.push((f.ident.span.start.0 as usize, f.ident.value.as_raw().to_string(), self.ctx.resolutions.try_get_def(&f.ident.value).map(|d| d.0.get())));
+                for p in &f.params { if let Some(id) = &p.value.ident { self.out.push((id.span.start.0 as usize, id.value.as_raw().to_string(), self.ctx.resolutions.try_get_def(&id.value).map(|d| d.0.get()))); } }
+            }
+            ast::walk_item(self, item)
+        }
+        fn visit_callable_name(&mut self, name: &truth::Sp<ast::CallableName>) {
+            if let ast::CallableName::Normal { ident, .. } = &name.value {
+                self.out.push((name.span.start.0 as usize, ident.as_raw().to_string(), self.ctx.resolutions.try_get_def(ident).map(|d| d.0.get())));
+            }
+        }
         fn visit_var(&mut self, var: &truth::Sp<ast::Var>) {
             if let ast::VarName::Normal { ident, .. } = &var.name {
                 let def = self.ctx.resolutions.try_get_def(ident).map(|d| d.0.get());
@@ -225,6 +297,7 @@ fn s_to_json(b: &[S]) -> Value {
     json!(b.iter().map(|s| match s {
         S::Decl(n, x) => json!({"decl": n, "e": e(x)}), S::Const(n, x) => json!({"const": n, "e": e(x)}), S::Use(x) => json!({"use": e(x)}), S::Assign(n, x) => json!({"assign": n, "e": e(x)}),
         S::Block(b) => json!({"block": s_to_json(b)}), S::If(c, a, b) => json!({"if": e(c), "then": s_to_json(a), "else": b.as_ref().map(|b| s_to_json(b))}), S::Loop(k, b) => json!({"loop": s_to_json(b), "kind": k}),
+        S::Func(n, ps, b) => json!({"func": n, "params": ps, "body": s_to_json(b)}), S::CallF(n, es) => json!({"callf": n, "args": es.iter().map(e).collect::<Vec<_>>()}),
     }).collect::<Vec<_>>())
 }
 fn s_from_json(v: &Value) -> Vec<S> {
@@ -234,6 +307,8 @@ fn s_from_json(v: &Value) -> Vec<S> {
         else if let Some(n) = s.get("const") { S::Const(n.as_str().unwrap().into(), e(&s["e"])) }
         else if let Some(x) = s.get("use") { S::Use(e(x)) }
         else if let Some(n) = s.get("assign") { S::Assign(n.as_str().unwrap().into(), e(&s["e"])) }
+        else if let Some(n) = s.get("func") { S::Func(n.as_str().unwrap().into(), s["params"].as_array().unwrap().iter().map(|p| p.as_str().unwrap().to_string()).collect(), s_from_json(&s["body"])) }
+        else if let Some(n) = s.get("callf") { S::CallF(n.as_str().unwrap().into(), s["args"].as_array().unwrap().iter().map(e).collect()) }
         else if let Some(b) = s.get("block") { S::Block(s_from_json(b)) }
         else if let Some(c) = s.get("if") { S::If(e(c), s_from_json(&s["then"]), if s["else"].is_null() { None } else { Some(s_from_json(&s["else"])) }) }
         else { S::Loop(s["kind"].as_u64().unwrap_or(0) as u8, s_from_json(&s["loop"])) }
@@ -258,6 +333,8 @@ fn rename(b: &[S], occ: &[(String, Res)], k: &mut usize, names: &mut BTreeMap<us
         S::Block(b) => S::Block(rename(b, occ, k, names)),
         S::If(c, a, e) => { let c2 = ex(c, occ, k, names); let a2 = rename(a, occ, k, names); let e2 = e.as_ref().map(|e| rename(e, occ, k, names)); S::If(c2, a2, e2) }
         S::Loop(kind, b) => S::Loop(*kind, rename(b, occ, k, names)),
+        S::Func(n, ps, b) => { let n2 = nm(n, occ, k, names); let ps2: Vec<String> = ps.iter().map(|p| nm(p, occ, k, names)).collect(); let b2 = rename(b, occ, k, names); S::Func(n2, ps2, b2) }
+        S::CallF(n, es) => { let n2 = nm(n, occ, k, names); let es2 = es.iter().map(|e| ex(e, occ, k, names)).collect(); S::CallF(n2, es2) }
     }).collect()
 }
 
@@ -268,7 +345,7 @@ impl Property for C10 {
     }
     fn tape_len(&self, tier: Tier) -> usize { tier.pick(150, 300) }
     fn cases(&self, tier: Tier) -> u32 { tier.pick(200000, 4000000) }
-    fn required_labels(&self, _tier: Tier) -> Vec<&'static str> { vec!["model:ok", "model:error", "shadowing", "forward_ref", "redeclared", "const_barrier_use", "renamed_compiled", "two-languages", "two-languages:same-spelling"] }
+    fn required_labels(&self, _tier: Tier) -> Vec<&'static str> { vec!["model:ok", "model:error", "shadowing", "forward_ref", "redeclared", "const_barrier_use", "functions", "function_barrier_use", "renamed_compiled", "two-languages", "two-languages:same-spelling"] }
 
     fn generate(&self, tape: &mut Tape, tier: Tier, _known: &Known) -> Value {
         if tape.chance(1, 8) {
@@ -299,8 +376,11 @@ impl Property for C10 {
         let mut weighted: Vec<&str> = vec![]; for _ in 0..3 { weighted.extend(POOL); } weighted.extend(ALIASES); weighted.extend(BUILTINS);
         let mut budget = tier.pick(14, 24);
         let globals: Vec<String> = ALIASES.iter().chain(BUILTINS.iter()).map(|s| s.to_string()).collect();
+        let with_fns = tape.bool();
+        FNS.with(|f| f.set(with_fns));
         let b = gen_block(tape, 3, &mut budget, &weighted, &globals);
-        json!({"tree": s_to_json(&b)})
+        FNS.with(|f| f.set(false));
+        json!({"tree": s_to_json(&b), "functions": with_fns})
     }
 
     fn check(&self, case: &Value, ctx: &mut CheckCtx) -> Outcome {
@@ -314,12 +394,14 @@ impl Property for C10 {
         if m.forward { ctx.label("forward_ref"); }
         if m.redeclared { ctx.label("redeclared"); }
         if m.barrier_use { ctx.label("const_barrier_use"); }
+        if m.fn_barrier_use { ctx.label("function_barrier_use"); }
+        if case["functions"] == true { ctx.label("functions"); }
         if m.shadow || m.forward || m.barrier_use { ctx.nontrivial(); }
         let unspecified = m.occ.iter().any(|(_, r)| *r == Res::Unspecified);
         if unspecified { ctx.label("unspecified_shape"); }
         let spec = default_lang();
         let hooks = spec.hooks();
-        let mut all_names: Vec<&str> = POOL.to_vec(); all_names.extend(ALIASES); all_names.extend(BUILTINS);
+        let mut all_names: Vec<&str> = POOL.to_vec(); all_names.extend(ALIASES); all_names.extend(BUILTINS); all_names.extend(FPOOL);
         let tokens = ident_tokens(&text, &all_names);
         if tokens.len() != m.occ.len() || tokens.iter().zip(m.occ.iter()).any(|(t, o)| t.1 != o.0) { return Outcome::Discard("harness: token/occurrence mismatch".into()); }
 
@@ -344,6 +426,7 @@ impl Property for C10 {
             let mut class_of_def: BTreeMap<u32, String> = BTreeMap::new();
             let mut def_of_class: BTreeMap<String, u32> = BTreeMap::new();
             for ((off, name), (_, r)) in tokens.iter().zip(m.occ.iter()) {
+                if *r == Res::Unchecked { continue; }
                 let Some(def) = by_off.get(off).copied().flatten() else { return Outcome::Fail(Failure::new("c10:occurrence-unresolved", format!("`{}` at byte {} has no definition after successful resolution\n{}", name, off, text))); };
                 let class = match r { Res::Decl(d) => format!("decl:{}", d), Res::Global(g) => g.clone(), _ => continue };
                 if let Some(c0) = class_of_def.get(&def) { if *c0 != class { return Outcome::Fail(Failure::new("c10:two-declarations-share-a-definition", format!("`{}` at byte {}: truth gives it the definition of {} but the model says {}\n{}", name, off, c0, class, text))); } }
